@@ -130,6 +130,15 @@ void vf_run(uint64_t idx, const std::string& tier, vf::Ctx& c) {
   const Cfg& k = cfgs(tier == "thorough")[idx];
   double b = k.a * std::sqrt(1 - k.e * k.e);
   EarthEllipsoid ell(k.a, b);
+  {   // the same zone is first set up on ellipsoids with the SAME eccentricity and another semi-major axis (a power of two and 0.1 % away), and on
+      // another eccentricity with the same axis: whatever the library keeps from one set-up must not leak into the next
+    for (double f : {2.0, 1.001}) { EarthEllipsoid scaled(k.a * f, b * f);
+      LambertConverter prime = k.tangent ? LambertConverter(LambertConverter::TangentProjectionParameters{k.lat0, k.lon0, k.k0, k.x0, k.y0}, scaled) : LambertConverter(LambertConverter::SecantProjectionParameters{k.lon0, k.lat0, k.lat1, k.lat2, k.x0, k.y0}, scaled);
+      (void)prime.toLambert(WGS84Coordinates{k.lat0, k.lon0}); }
+    EarthEllipsoid rounder(k.a, k.a * std::sqrt(1 - 0.25 * k.e * k.e));
+    LambertConverter prime2 = k.tangent ? LambertConverter(LambertConverter::TangentProjectionParameters{k.lat0, k.lon0, k.k0, k.x0, k.y0}, rounder) : LambertConverter(LambertConverter::SecantProjectionParameters{k.lon0, k.lat0, k.lat1, k.lat2, k.x0, k.y0}, rounder);
+    (void)prime2.toWGS84(prime2.toLambert(WGS84Coordinates{k.lat0, k.lon0}));
+  }
   LambertConverter conv = k.tangent ? LambertConverter(LambertConverter::TangentProjectionParameters{k.lat0, k.lon0, k.k0, k.x0, k.y0}, ell)
                                     : LambertConverter(LambertConverter::SecantProjectionParameters{k.lon0, k.lat0, k.lat1, k.lat2, k.x0, k.y0}, ell);
   std::string cj = cfg_json(k);
@@ -198,6 +207,7 @@ std::string vf_describe(const std::string& tier) {
   o.str("tangent", "phi0 15..75 (both hemispheres), k0 in {0.99, 0.99987734, 1}");
   o.str("named_zones", "Lambert-93, CC42..CC50, Lambert I, II, III, IV, II etendu");
   o.str("points", "dlat {0,+-1,+-4,+-8} deg x dlon {0,+-1,+-10,+-30} deg around the projection origin; standard parallels at dlon {0,7,-25} deg");
+  o.str("preceding_setups", "before every converter under test the same zone is set up on ellipsoids with the same eccentricity and a semi-major axis x2 / x1.001, and on another eccentricity with the same axis");
   o.str("trajectories", std::string("three long-lived converters (Lambert-93, Lambert II etendu, a southern secant cone): consecutive fixes {1e-12,1e-10,1e-9,1e-8,1.6e-7,6.3e-7,2e-6,1e-5,1e-4,1e-3} rad apart (6 um .. 6 km) x {north, east, north-east} x {drift, widening back-and-forth} x ") + (th ? "1500" : "150") + " fixes; forward then inverse at every fix within 1e-11 rad");
   o.str("interleaving", th ? "three long-lived converters (Lambert-93/GRS80, Lambert II etendu/Clarke 1880, a southern secant cone on the sphere), every sequence of 6 calls over {toLambert x3 points, toWGS84 x3 points} x 3 converters, each result bit-equal to the same call on a fresh isolated converter" : "three long-lived converters (Lambert-93/GRS80, Lambert II etendu/Clarke 1880, a southern secant cone on the sphere), every sequence of 3 calls over {toLambert x3 points, toWGS84 x3 points} x 3 converters, each result bit-equal to the same call on a fresh isolated converter");
   o.str("oracle", "central differences (1e-5 rad) of the library forward map: |h-k|<=1e-8, meridian/parallel images orthogonal (1e-8) and positively oriented, scale 1 (k0) on the standard parallel(s) within 1e-8; origin and central meridian within 1 micrometre; inverse within 1e-11 rad; termination by watchdog");
